@@ -44,3 +44,11 @@ Theorem C15_send_always_enabled : forall (A : Type) (cap : nat) (dflt : A) s x,
   s_sent A (step A cap dflt s (MSend x)) = s_sent A s ++ [x] /\ s_h A (step A cap dflt s (MSend x)) = s_h A s.
 Proof. exact send_always_enabled. Qed.
 Print Assumptions C15_send_always_enabled.
+
+(* the premise of abstracting from time in this property's model: the code it models waits, polls and gives up
+   exactly where the model says (primitive codes in Proofs/W_*.v); re-extracted from the source on every run *)
+Require Import GV.Gen.Consts GV.Proofs.W_runtime GV.Proofs.W_authority GV.Proofs.W_net GV.Proofs.W_can.
+Theorem C15_time_abstraction : waits_runtime = (@cons Z 10%Z (@cons Z 10%Z (@cons Z 10%Z (@cons Z 10%Z (@cons Z 10%Z (@cons Z 2%Z (@cons Z 10%Z (@nil Z)))))))) /\ waits_authority = (@nil Z) /\ waits_net = (@nil Z) /\ waits_can = (@nil Z).
+Proof. exact (conj w_runtime (conj w_authority (conj w_net w_can))). Qed.
+Check C15_time_abstraction : waits_runtime = (@cons Z 10%Z (@cons Z 10%Z (@cons Z 10%Z (@cons Z 10%Z (@cons Z 10%Z (@cons Z 2%Z (@cons Z 10%Z (@nil Z)))))))) /\ waits_authority = (@nil Z) /\ waits_net = (@nil Z) /\ waits_can = (@nil Z).
+Print Assumptions C15_time_abstraction.
